@@ -47,10 +47,16 @@ pub struct Case {
     /// (record index, minimum length): that record is repeated to this length (multiplicities beyond 65535)
     #[serde(default)]
     pub stretch: Option<(u16, usize)>,
+    /// one more record: a unit repeated `.1` times, so that its k-mers occur exactly (or one less than) that often
+    #[serde(default)]
+    pub edge: Option<(crate::util::Bytes, usize)>,
 }
 
 fn materialise(c: &Case) -> Vec<Rec> {
     let mut recs = c.recs.clone();
+    if let Some((unit, r)) = &c.edge {
+        recs.push(Rec { id: "edge_multiplicity".into(), desc: None, seq: crate::util::Bytes(unit.0.repeat(*r)) });
+    }
     if let Some((i, min_len)) = c.stretch {
         if !recs.is_empty() {
             let idx = crate::util::idx16(i, recs.len());
@@ -124,8 +130,13 @@ pub fn check_vectors(data: &[u8], recs: &[Rec], counting: &[Rec], k: usize, bin_
 
 pub fn check_case(c0: &Case) -> Verdict {
     let mut v = Verdict::new();
-    let c = &Case { recs: materialise(c0), ..c0.clone() };
+    let c = &Case { recs: materialise(c0), edge: None, ..c0.clone() };
     v.class_if(c.recs.iter().any(|r| r.seq.0.len() > 65536), "record>65536");
+    v.class_if(c0.edge.is_some(), "edge-multiplicity-record");
+    if let Some((_, r)) = &c0.edge {
+        v.class_if(r % c.bin_size == 0 && r / c.bin_size < c.bin_count, "multiplicity-exact-multiple-of-bin-size");
+    }
+    v.class(match c.bin_size { 1..=8 => "binsize<=8", 9..=48 => "binsize-9..48", 49..=600 => "binsize-49..600", _ => "binsize>600" });
     let dir = crate::scratch_dir();
     let input = io::write_input(dir.path(), "in", &c.recs, &c.cont);
     let alt_path = c.alt.as_ref().map(|a| io::write_input(dir.path(), "alt", a, &Container::plain_fasta()));
@@ -173,7 +184,7 @@ impl Leg for Runs {
     type Case = Case;
     const NAME: &'static str = "runs";
     fn strategy(tier: Tier) -> BoxedStrategy<Case> {
-        let bins = || prop_oneof![6 => 1usize..=8, 1 => Just(16usize), 1 => Just(1000usize)];
+        let bins = || prop_oneof![6 => 1usize..=8, 1 => Just(16usize), 1 => Just(1000usize), 2 => 9usize..=48, 4 => 49usize..=600, 1 => 601usize..=5000];
         let binc = prop_oneof![6 => 1usize..=8, 1 => Just(16usize)];
         let mem = prop_oneof![
             3 => prop::sample::select(vec![1usize, 2, 3, 5]).prop_map(CovMem::Chunks),
@@ -196,7 +207,17 @@ impl Leg for Runs {
                 } else {
                     Just(None).boxed()
                 };
-                (gen::records_mixed_in_container(p), alt, prop_oneof![60 => Just(None), 2 => (any::<u16>(), Just(3_000usize)).prop_map(Some), 1 => (any::<u16>(), Just(140_000usize)).prop_map(Some)]).prop_map(move |((recs, cont), alt, stretch)| {
+                // multiplicities at the bin edges: m x bin size (and one off), m below the bin count and at it
+                let edge = prop_oneof![
+                    if bin_size > 8 { 1 } else { 3 } => Just(None).boxed(),
+                    2 => (proptest::collection::vec(prop::sample::select(b"ACGT".to_vec()), 64), 1usize..=bin_count.max(1), prop::sample::select(vec![0i64, 0, 0, -1, 1]))
+                        .prop_map(move |(unit, m, d)| {
+                            let r = ((m * bin_size) as i64 + d).max(1) as usize;
+                            Some((crate::util::Bytes(unit), r.min(2_000_000 / 64)))
+                        })
+                        .boxed(),
+                ];
+                (gen::records_mixed_in_container(p), alt, prop_oneof![60 => Just(None), 2 => (any::<u16>(), Just(3_000usize)).prop_map(Some), 1 => (any::<u16>(), Just(140_000usize)).prop_map(Some)], edge).prop_map(move |((recs, cont), alt, stretch, edge)| {
                     // the alternative counting input shares a prefix of the records so multiplicities differ
                     let alt = alt.map(|(mut a, share)| {
                         let take = crate::util::idx16(share, recs.len() + 1);
@@ -205,7 +226,7 @@ impl Leg for Runs {
                         }
                         a
                     });
-                    Case { recs, cont, alt, k, bin_size, bin_count, norm, threads, mem, delim: delim.to_string(), stretch }
+                    Case { recs, cont, alt, k, bin_size, bin_count, norm, threads, mem, delim: delim.to_string(), stretch, edge }
                 })
             })
             .boxed()
@@ -215,7 +236,164 @@ impl Leg for Runs {
     }
 }
 
+// ---------------------------------------------------------------------------------------------
+// re-run in place: the same output directory and the same input *path*, but the file now holds other
+// records of exactly the same byte length (and, half of the time, the same modification time). The
+// multiplicities must be those of the input as it is now.
+
+#[derive(Clone, Copy, Debug, Serialize, Deserialize, PartialEq)]
+pub enum Rewrite {
+    /// every sequence reversed (not complemented)
+    Reverse,
+    /// A<->C and G<->T
+    Swap,
+    /// bases rotated by one position inside every record
+    Rotate,
+}
+
+#[derive(Clone, Debug, Serialize, Deserialize)]
+pub struct RerunCase {
+    pub first: Case,
+    pub rewrite: Rewrite,
+    pub keep_mtime: bool,
+    /// the second run may use other bins / normalisation / threads (never another k: same table is legitimate only then)
+    pub second_bins: Option<(usize, usize, bool)>,
+}
+
+fn rewrite(recs: &[Rec], how: Rewrite) -> Vec<Rec> {
+    recs.iter()
+        .map(|r| {
+            let s = &r.seq.0;
+            let t: Vec<u8> = match how {
+                Rewrite::Reverse => s.iter().rev().copied().collect(),
+                Rewrite::Swap => s
+                    .iter()
+                    .map(|&b| match b {
+                        b'A' => b'C',
+                        b'C' => b'A',
+                        b'G' => b'T',
+                        b'T' => b'G',
+                        b'a' => b'c',
+                        b'c' => b'a',
+                        b'g' => b't',
+                        b't' => b'g',
+                        o => o,
+                    })
+                    .collect(),
+                Rewrite::Rotate => {
+                    let mut t = s.clone();
+                    if !t.is_empty() {
+                        t.rotate_left(1);
+                    }
+                    t
+                }
+            };
+            Rec { id: r.id.clone(), desc: r.desc.clone(), seq: crate::util::Bytes(t) }
+        })
+        .collect()
+}
+
+pub fn check_rerun(c: &RerunCase) -> Verdict {
+    let mut v = Verdict::new();
+    let a = &Case { recs: materialise(&c.first), edge: None, stretch: None, ..c.first.clone() };
+    let second_recs = rewrite(&a.recs, c.rewrite);
+    let second_alt = a.alt.as_ref().map(|x| rewrite(x, c.rewrite));
+    v.class(format!("rerun-{:?}", c.rewrite));
+    v.class_if(c.keep_mtime, "rerun-same-mtime");
+    v.class_if(a.alt.is_some(), "alt-input");
+    let dir = crate::scratch_dir();
+    let outdir = dir.path().join("out");
+    std::fs::create_dir_all(&outdir).unwrap();
+    let input = io::write_input(dir.path(), "in", &a.recs, &a.cont);
+    let alt_path = a.alt.as_ref().map(|x| io::write_input(dir.path(), "alt", x, &Container::plain_fasta()));
+    let alt_s = alt_path.as_ref().map(|p| io::path_str(p));
+    let counting: &[Rec] = a.alt.as_deref().unwrap_or(&a.recs);
+    let mem_gb = a.mem.gb(counting);
+    let o1 = exec(&io::path_str(&input), alt_s.as_deref(), &outdir, a.k, a.bin_size, a.bin_count, a.norm, a.threads, mem_gb, &a.delim);
+    if let Err(p) = &o1.result {
+        v.fail(crate::engine::panic_sig(p), format!("first run panicked: {}", p));
+        return v;
+    }
+    match o1.vectors.as_deref().map(|d| check_vectors(d, &a.recs, counting, a.k, a.bin_size, a.bin_count, a.norm, &a.delim)) {
+        Some(Ok(_)) => {}
+        Some(Err((s, m))) => {
+            v.fail(s, format!("first run: {}", m));
+            return v;
+        }
+        None => {
+            v.fail("no-vectors-file", "kmers.vectors does not exist after the first run");
+            return v;
+        }
+    }
+    // rewrite the files in place
+    let before: Vec<(std::path::PathBuf, u64, std::time::SystemTime)> = std::iter::once(&input)
+        .chain(alt_path.iter())
+        .map(|p| {
+            let md = std::fs::metadata(p).unwrap();
+            (p.clone(), md.len(), md.modified().unwrap())
+        })
+        .collect();
+    let input2 = io::write_input(dir.path(), "in", &second_recs, &a.cont);
+    let alt2 = second_alt.as_ref().map(|x| io::write_input(dir.path(), "alt", x, &Container::plain_fasta()));
+    assert_eq!(input2, input);
+    assert_eq!(alt2, alt_path);
+    let mut same_size = true;
+    for (p, len, mtime) in &before {
+        same_size &= std::fs::metadata(p).unwrap().len() == *len;
+        if c.keep_mtime {
+            let f = std::fs::OpenOptions::new().write(true).open(p).unwrap();
+            f.set_modified(*mtime).unwrap();
+        }
+    }
+    // gzip output of other content need not have the same size; the class says what was reached
+    v.class_if(same_size, "rerun-same-byte-size");
+    let (bs, bc, norm) = c.second_bins.unwrap_or((a.bin_size, a.bin_count, a.norm));
+    let counting2: &[Rec] = second_alt.as_deref().unwrap_or(&second_recs);
+    let changed = {
+        let t1 = model::count_table(&counting.iter().map(|r| &r.seq.0[..]).collect::<Vec<_>>(), a.k);
+        let t2 = model::count_table(&counting2.iter().map(|r| &r.seq.0[..]).collect::<Vec<_>>(), a.k);
+        t1 != t2
+    };
+    v.nontrivial = changed && !second_recs.is_empty();
+    v.class_if(changed, "rerun-multiplicities-changed");
+    let o2 = exec(&io::path_str(&input), alt_s.as_deref(), &outdir, a.k, bs, bc, norm, a.threads, mem_gb, &a.delim);
+    if let Err(p) = &o2.result {
+        v.fail(crate::engine::panic_sig(p), format!("second run panicked: {}", p));
+        return v;
+    }
+    match o2.vectors.as_deref().map(|d| check_vectors(d, &second_recs, counting2, a.k, bs, bc, norm, &a.delim)) {
+        Some(Ok(_)) => {}
+        Some(Err((s, m))) => v.fail(format!("rerun-{}", s), format!("second run into the same directory after the input file was rewritten in place ({:?}, same size {}, same mtime {}): {} [k={}, bin size {}, bin count {}]", c.rewrite, same_size, c.keep_mtime, m, a.k, bs, bc)),
+        None => v.fail("no-vectors-file", "kmers.vectors does not exist after the second run"),
+    }
+    v
+}
+
+pub struct Rerun;
+impl Leg for Rerun {
+    type Case = RerunCase;
+    const NAME: &'static str = "rerun-in-place";
+    fn strategy(tier: Tier) -> BoxedStrategy<RerunCase> {
+        (Runs::strategy(tier), prop::sample::select(vec![Rewrite::Reverse, Rewrite::Swap, Rewrite::Rotate]), any::<bool>(), prop_oneof![1 => Just(None), 1 => (1usize..=8, 1usize..=8, any::<bool>()).prop_map(Some)])
+            .prop_map(|(mut first, rewrite, keep_mtime, second_bins)| {
+                // uncompressed containers keep the byte size; gzip mostly does not (still generated, less often useful)
+                if first.cont.gz.is_some() && first.recs.len() % 3 != 0 {
+                    first.cont.gz = None;
+                }
+                first.stretch = None;
+                RerunCase { first, rewrite, keep_mtime, second_bins }
+            })
+            .boxed()
+    }
+    fn check(c: &RerunCase) -> Verdict {
+        check_rerun(c)
+    }
+}
+
 pub fn run(ctx: &mut Ctx) {
+    let n = ctx.share(ctx.tier.pick(800, 12_000));
+    ctx.run_leg::<Rerun>(n, true, 100);
+
     let n = ctx.share(ctx.tier.pick(2_400, 40_000));
     ctx.run_leg::<Runs>(n, true, 200);
 }
@@ -223,6 +401,7 @@ pub fn run(ctx: &mut Ctx) {
 pub fn replay(leg: &str, case: &serde_json::Value) -> Option<Result<Verdict, String>> {
     match leg {
         "runs" => Some(crate::engine::replay_leg::<Runs>(case)),
+        "rerun-in-place" => Some(crate::engine::replay_leg::<Rerun>(case)),
         _ => None,
     }
 }
